@@ -173,7 +173,9 @@ def build_instruction(mn, variants):
                 continue
             sname = f'{mn}_v{vi}s{si}'
             suffix = '' if v.get('shared') else str(si)
-            opsets[sname] = {'operand_values': {f'{name}{suffix}': ALTS[name][1](code) for name, code in s}}
+            # 'idprefix': how the operand ids are spelled ('asc': alphabetical in definition order, 'desc': reverse) - names carry no meaning
+            pre = {None: lambda k: '', 'asc': lambda k: chr(ord('a') + k) + '_', 'desc': lambda k: chr(ord('z') - k) + '_'}[v.get('idprefix')]
+            opsets[sname] = {'operand_values': {f'{pre(k)}{name}{suffix}': ALTS[name][1](code) for k, (name, code) in enumerate(s)}}
             names.append(sname)
         if names:
             ops['operand_sets'] = {'list': names}
@@ -197,7 +199,8 @@ def meta(tier):
         'rule': 'one-slot: every ordered pair of variants whose single slot is any subset of size <=2 (thorough 3) of the 13 alternative '
                 'kinds (at most one numeric-like kind per set) x all 18 operand texts x mnemonic case; two-slot: variants over a '
                 'reduced subset list, with and without an explicitly listed combination and a disallowed pair (also both at once, for the same pair of operand ids), x pairs of 8 texts; '
-                'three variants over a reduced list; expected = opcode of the first accepting variant + code of the chosen '
+                'three variants over a reduced list; renaming differential: 11 operand sets (also ones with two alternatives of the same kind) x all texts, '
+                'operand ids spelled in alphabetical and in reverse alphabetical order, same encoding required; expected = opcode of the first accepting variant + code of the chosen '
                 'alternative (+ argument), or rejection; non-trivial = statement that more than one variant or more than one '
                 'alternative of a set could accept syntactically; distinct by construction',
         'bounds': {'alternatives': ALT_NAMES, 'texts': list(TEXTS), 'subset_size': 2 if q else 3},
@@ -209,7 +212,7 @@ def meta(tier):
         ],
         'floors': {'evaluations': 1000, 'nontrivial': 100, 'statuses': ['OK', 'REJECT'],
                    'clauses': ['first-variant', 'later-variant', 'no-variant-rejected', 'register-not-numeric', 'specific-before-sets',
-                               'disallowed-skipped']},
+                               'disallowed-skipped', 'names-carry-no-meaning']},
         'nshards': 64, 'xcheck': 16,
     }
 
@@ -316,6 +319,7 @@ def codes(n, start=8):
 
 def shard(acc, tier, idx, n):
     q = tier == 'quick'
+    renaming(acc, idx, n, 0)
     ctr = 0
     subs = subsets(2 if q else 3)
     one_texts = [(t,) for t in TEXTS]
@@ -422,5 +426,50 @@ def shard(acc, tier, idx, n):
         run_group(acc, group, one_texts)
 
 
+RENAME_SETS = [('numeric', 'numeric_va'), ('numeric_va', 'numeric'), ('numeric', 'address'), ('address', 'numeric_va'), ('numbc', 'numeric'),
+               ('numeric', 'numbc'), ('ind_num', 'ind_num_va'), ('ind_num_va', 'ind_num'), ('reg_a', 'reg_b', 'numeric'),
+               ('enum_foo', 'reg_a', 'numeric_va', 'numeric'), ('idx_reg_a', 'ind_reg_a', 'ind_num')]
+
+
+def renaming(acc, idx, n, ctr0):
+    """The encoding depends only on the ordering in the definition: spelling the operand ids differently (alphabetical in definition
+    order / reverse alphabetical) must not change any statement.  Also for sets whose alternatives the statement does not order
+    among themselves (two numeric-like ones): whatever order the assembler uses, it cannot be the names."""
+    ctr = ctr0
+    header = [f'{k} = {v}' for k, v in LABELS.items()] + ['foo_x = 3']
+    for alts in RENAME_SETS:
+        for text in TEXTS:
+            ctr += 1
+            if ctr % n != idx:
+                continue
+            outs, cases = [], []
+            for pre in ('asc', 'desc'):
+                v = {'opcode': 0xB1, 'sets': [[(nm, 1 + x) for x, nm in enumerate(alts)]], 'idprefix': pre}
+                cfg, sets = build_instruction('rn', [v])
+                isa = {'general': {'address_size': 16, 'endian': 'big', 'registers': REGS, 'min_version': '0.3.0'},
+                       'operand_sets': sets, 'instructions': {'rn': cfg}}
+                case = Case(isa, '\n'.join(header + [f'    rn {text}']) + '\n')
+                cases.append(case)
+                outs.append(acc.run(case))
+            spec = {'type': 'renaming', 'set': list(alts), 'statement': f'rn {text}'}
+            msg = judge_renaming(spec, outs)
+            if msg:
+                acc.violation(cases, spec, f'rn {text} with operand set {list(alts)}: {msg}', outs)
+            acc.judge(clause='names-carry-no-meaning', nontrivial_distinct=True)
+    return ctr
+
+
+def judge_renaming(spec, outs):
+    a, b = outs
+    if a.status != b.status:
+        return f'with ids in alphabetical order: {a.status} ({a.detail}); with the same definition and ids in reverse alphabetical order: {b.status} ({b.detail})'
+    if a.image != b.image:
+        return (f'encoding {a.image.hex() if a.image else None} with ids in alphabetical order, '
+                f'{b.image.hex() if b.image else None} with ids in reverse alphabetical order')
+    return None
+
+
 def judge(spec, outcomes):
+    if spec.get('type') == 'renaming':
+        return judge_renaming(spec, outcomes)
     return judge_expect(spec, outcomes)
